@@ -920,7 +920,7 @@ func init() {
 			src = e.k
 		}
 		in.onWrite(v.Addr)
-		*v.Addr = copyVal(src)
+		assignInPlace(v.Addr, src)
 		return nil
 	}
 	reg("(reflect.Value).SetIterKey", func(in *Interp, fr *frame, a []Value) Value { return setIter(in, a, true) })
@@ -938,7 +938,7 @@ func init() {
 			}
 		}
 		in.onWrite(v.Addr)
-		*v.Addr = val
+		assignInPlace(v.Addr, val)
 		return nil
 	})
 	reg("(reflect.StructTag).Get", func(in *Interp, fr *frame, a []Value) Value {
